@@ -2,3 +2,4 @@ import OvniModel.Generated.All
 import OvniModel.Version
 import OvniModel.Lemmas.Version
 import OvniModel.Props.C14
+import OvniModel.Emu.System
